@@ -12,7 +12,11 @@ package wrkchain
 //@   pure
 //@   requires wrkHighestSet(wrk_store) ==> len(wrk_store[kHighest]) == 8
 //@   requires forall i int, h int :: {wrk_store[kBlock(i, h)]} blkHas(wrk_store, i, h) ==> 0 <= h && h < 2^64 && blkGet(wrk_store, i, h).Height == h
+//@   requires forall i int :: {wrk_store[kWrkChain(i)]} wcHas(wrk_store, i) ==> 0 <= i && i < 2^64 && wcGet(wrk_store, i).WrkchainId == i
 //@   let recs := gs.RegisteredWrkchains
+//@   ensures @registrations_ascending forall i int, j int :: {recs[i], recs[j]} 0 <= i && i < j && j < len(recs) ==> recs[i].Wrkchain.WrkchainId < recs[j].Wrkchain.WrkchainId
+//@   ensures @registrations_as_stored forall j int :: {recs[j]} 0 <= j && j < len(recs) ==> wcHas(wrk_store, recs[j].Wrkchain.WrkchainId) && wcSameIdentity(recs[j].Wrkchain, wcGet(wrk_store, recs[j].Wrkchain.WrkchainId)) && recs[j].Wrkchain.Lastblock == wcGet(wrk_store, recs[j].Wrkchain.WrkchainId).Lastblock
+//@   ensures @every_registration forall x uint64 :: {wrk_store[kWrkChain(x)]} wcHas(wrk_store, x) ==> exists j int :: 0 <= j && j < len(recs) && recs[j].Wrkchain.WrkchainId == x
 //@   ensures @records_as_stored forall j int, b int :: {recs[j].Blocks[b]} 0 <= j && j < len(recs) && 0 <= b && b < len(recs[j].Blocks) ==> blkHas(wrk_store, recs[j].Wrkchain.WrkchainId, recs[j].Blocks[b].He) && recs[j].Blocks[b] == blkExp(blkGet(wrk_store, recs[j].Wrkchain.WrkchainId, recs[j].Blocks[b].He))
 //@   ensures @records_ascending_and_capped forall j int :: {recs[j]} 0 <= j && j < len(recs) ==> len(recs[j].Blocks) <= 20000 && forall a int, b int :: {recs[j].Blocks[a], recs[j].Blocks[b]} 0 <= a && a < b && b < len(recs[j].Blocks) ==> recs[j].Blocks[a].He < recs[j].Blocks[b].He
 //@   ensures @newest_records_without_gaps forall j int, h uint64 :: {wrk_store[kBlock(recs[j].Wrkchain.WrkchainId, h)]} 0 <= j && j < len(recs) && blkHas(wrk_store, recs[j].Wrkchain.WrkchainId, h) && (len(recs[j].Blocks) < 20000 || h >= recs[j].Blocks[0].He) ==> exists b int :: 0 <= b && b < len(recs[j].Blocks) && recs[j].Blocks[b].He == h
@@ -22,7 +26,7 @@ package wrkchain
 //@   ensures @next_id wrkHighestSet(wrk_store) ==> wrkHighestIs(wrk_store, gs.StartingWrkchainId)
 //@   loop 0: invariant 0 - 1 <= rangeindex && rangeindex < len(wrkChains) && len(records) == rangeindex + 1
 //@   loop 0: invariant forall j int :: {records[j]} 0 <= j && j < len(records) ==> records[j].Wrkchain.NumBlocks == len(records[j].Blocks) && records[j].Wrkchain.LowestHeight == (len(records[j].Blocks) > 0 ? records[j].Blocks[0].He : 0)
-//@   loop 0: invariant forall j int :: {records[j]} 0 <= j && j < len(records) ==> records[j].Wrkchain.WrkchainId == wrkChains[j].WrkchainId && records[j].Wrkchain.Owner == wrkChains[j].Owner && records[j].Wrkchain.Lastblock == wrkChains[j].Lastblock && records[j].Wrkchain.Moniker == wrkChains[j].Moniker
+//@   loop 0: invariant forall j int :: {records[j]} {wrkChains[j]} 0 <= j && j < len(records) ==> wcSameIdentity(records[j].Wrkchain, wrkChains[j]) && records[j].Wrkchain.Lastblock == wrkChains[j].Lastblock
 //@   loop 0: invariant forall j int :: {records[j]} 0 <= j && j < len(records) && limHas(wrk_store, records[j].Wrkchain.WrkchainId) ==> records[j].InStateLimit == limGet(wrk_store, records[j].Wrkchain.WrkchainId)
 //@   loop 0: invariant forall j int, b int :: {records[j].Blocks[b]} 0 <= j && j < len(records) && 0 <= b && b < len(records[j].Blocks) ==> blkHas(wrk_store, records[j].Wrkchain.WrkchainId, records[j].Blocks[b].He) && records[j].Blocks[b] == blkExp(blkGet(wrk_store, records[j].Wrkchain.WrkchainId, records[j].Blocks[b].He))
 //@   loop 0: invariant forall j int :: {records[j]} 0 <= j && j < len(records) ==> len(records[j].Blocks) <= 20000 && forall a int, b int :: {records[j].Blocks[a], records[j].Blocks[b]} 0 <= a && a < b && b < len(records[j].Blocks) ==> records[j].Blocks[a].He < records[j].Blocks[b].He
